@@ -585,6 +585,22 @@ func Monitor(spec *Spec, tr *Trace) []Finding {
 			}
 		}
 	}
+	// a buffered graph run from inside a task of a buffered graph: its output goes to its own writer, block by block
+	if spec.Buffer && tr.OutputRead && tr.InnerRan && !spec.WriterFails {
+		if tr.InnerErr != "" && tr.CancelSeq == 0 {
+			add("C15", "nested buffered graph: Run returned %q", tr.InnerErr)
+		}
+		for k := 0; k < 3; k++ {
+			block := fmt.Sprintf("<g7:t%d:1:1/2><g7:t%d:1:2/2>", k, k)
+			if strings.Count(tr.InnerOutput, block) != 1 {
+				add("C15", "nested buffered graph: the output of inner task i%d did not reach the inner graph's writer as one contiguous block (inner writer received %q)", k, tr.InnerOutput)
+			}
+		}
+		if strings.Contains(tr.Output, "<g7:") {
+			add("C15", "nested buffered graph: output of the inner graph's tasks was delivered to the outer graph's writer")
+			tr.Output = regexp.MustCompile(`<g7:t\d+:1:\d/2>`).ReplaceAllString(tr.Output, "")
+		}
+	}
 	// buffered output: every attempt's chunks complete, contiguous, once
 	if spec.Buffer && tr.OutputRead && !spec.WriterFails {
 		ms := chunkRe.FindAllStringSubmatch(tr.Output, -1)
